@@ -44,8 +44,8 @@ TOL64 = 1e-10
 TOL_FIT = 1e-4
 # end-to-end fit (fit_hyperparameters_cross_correlation on a synthetic virtual bright-field stack): the shifts are
 # measured by upsampled cross-correlation (factor >= 16), not computed; measured on the clean tree over 400
-# configurations of the generated family: <= 5.8e-3 (relative aberration matrix / rad), median 4e-4.  0.1 leaves
-# 17x head-room; a fit that misses the generating values at all is off by O(1).
+# configurations of the generated family (~700 fits): <= 9.6e-3 (relative aberration matrix / rad), median 4e-4.
+# 0.1 leaves 10x head-room; a fit that misses the generating values at all is off by O(1).
 TOL_E2E = 0.1
 
 SITES = [
@@ -1462,7 +1462,7 @@ def search(ctx):
     core.run_given(ctx, "history", history_cases(), lambda c: check(ctx, c), ctx.n(400, 4000))
     core.run_given(ctx, "fit", fit_cases(), lambda c: check(ctx, c), ctx.n(500, 6000))
     # end-to-end fit histories on one live object: 1-2 s per case; not shrunk (each attempt costs as much)
-    core.run_given(ctx, "fit_history", fit_history_cases(), lambda c: check(ctx, c), ctx.n(8, 60), shrink=False)
+    core.run_given(ctx, "fit_history", fit_history_cases(), lambda c: check(ctx, c), ctx.n(6, 60), shrink=False)
     # whole alignments / searches: ~0.5 s per case
     if ctx.is_open(K_XCORR):
         ctx.exclude(K_XCORR, ctx.n(6, 120))
